@@ -248,3 +248,16 @@ package processor
 //@   loop [for]:
 //@     invariant [inv] Inv(p) && p.gst != nil && p.cleanup != nil
 //@     invariant [inv-sig] InvSig(p)
+
+// ---------------------------------------------------------------- construction (C01, C02, C13, C14)
+
+// The processor starts empty (no guardian set, an empty aggregation table) and with every
+// queue, key and the governance emitter exactly as the caller passed them: the handlers'
+// contracts speak about these fields.
+//@ func NewProcessor(ctx context.Context, d *db.Database, lockC chan *common.MessagePublication, setC chan *common.GuardianSet, sendC chan []byte, obsvC chan *gossipv1.SignedObservation, obsvReqSendC chan<- *gossipv1.ObservationRequest, injectC chan *vaa.VAA, signedInC chan *gossipv1.SignedVAAWithQuorum, guardianSigner ecdsasigner.ECDSASigner, gst *common.GuardianSetState, attestationEvents *reporter.AttestationEventReporter, notifier *discord.DiscordNotifier, governanceChainId vaa.ChainID, governanceEmitterAddress vaa.Address) (p *Processor)
+//@   props C01 C02 C13 C14
+//@   ensures [queues-as-passed] p != nil && p.lockC == lockC && p.setC == setC && p.sendC == sendC && p.obsvC == obsvC && p.obsvReqSendC == obsvReqSendC && p.injectC == injectC && p.signedInC == signedInC
+//@   ensures [parts-as-passed] p.db == d && p.gst == gst && p.guardianSigner == guardianSigner && p.attestationEvents == attestationEvents && p.notifier == notifier
+//@   ensures [governance-emitter-as-configured] p.governanceChainId == governanceChainId && p.governanceEmitterAddress == governanceEmitterAddress
+//@   ensures [starts-empty] p.gs == nil && p.state != nil && p.state.vaaSignatures != nil && len(p.state.vaaSignatures) == 0
+//@   modifies *
